@@ -104,6 +104,25 @@ def correspondence(ctx):
                     bad = (t, "raises %s: %s" % (type(e).__name__, e))
                     break
             if bad is None:
+                # the same collection with insignificant blanks inside the version texts the versions were built from
+                try:
+                    vc = S.vclass(name)
+                    spaced = []
+                    for o in objs:
+                        t = o.version.string if o.version is not None else None
+                        if t is None:
+                            spaced.append(o)
+                            continue
+                        i = rng.randint(1, len(t)) if len(t) > 1 else 1
+                        t2 = " " + t[:i] + rng.choice([" ", "  ", "\t"]) + t[i:] + " "
+                        spaced.append(VersionConstraint(comparator=o.comparator, version=vc(t2)))
+                    r = rcls(constraints=spaced)
+                    if str(r) != canon or not (r == base):
+                        bad = (" | ".join(repr(c.version.string) for c in spaced if c.version is not None),
+                               "built from versions whose text has blanks inside: %r differs from %r" % (str(r), canon))
+                except Exception as e:  # noqa: BLE001
+                    bad = ("(versions with blanks inside their text)", "raises %s: %s" % (type(e).__name__, e))
+            if bad is None:
                 for _ in range(3):
                     p = list(objs)
                     rng.shuffle(p)
